@@ -296,6 +296,10 @@ class Model:
             if name in m.funcs:
                 return "func", f"{base}:{name}"
             if name in m.imports:
+                if m.imports[name] == ("from", base, name):        # `from . import sub` inside the package's __init__
+                    if f"{base}.{name}" in self.mods:
+                        return "module", f"{base}.{name}"
+                    return "ext", f"{base}.{name}"
                 return self.resolve_import(m.imports[name], _depth + 1)
             if name in getattr(m, "reexports", {}):
                 return "ext", m.reexports[name]
